@@ -169,5 +169,53 @@ def run(ctx, out, prop, opts=OP, sources=SK, judge_table=True):
             exp = OUT[mo[0]] if mo[0] < len(OUT) else "?"
             if not got.startswith("?") and got != exp:
                 out.corr("R1-dest-matrix (DestMatrix.dest_outcome)", rep, exp, got)
+    run_parent_missing(ctx, out, prop, sources)
     if obs:
         out.sample(dict(kind="dest-matrix", cell=obs[0][0]["source"] + " onto " + obs[0][0]["destination_entry"], observed=obs[0][1]))
+
+
+def run_parent_missing(ctx, out, prop, sources=SK):
+    """the destination's PARENT directory does not exist (`xcp s/x t/nodir/x`): DestMatrix.parent_missing_outcome — a
+    directory source creates the ancestors, every other kind is refused with nothing created (correspondence
+    R1-parent-missing); direct oracle: exit 0 implies the entry exists at the path with the source's kind"""
+    rng = ctx.rng
+    d0 = ctx.work.fresh(prop.lower() + "pmiss")
+    cells, obs = [], []
+    k = 0
+    for sk in sources:
+        for driver in ("parfile", "parblock"):
+            k += 1
+            d = os.path.join(d0, "p%d" % k)
+            os.makedirs(d)
+            build(rng, d, sk, "absent")
+            before = xcp.snapshot(os.fsencode(d))
+            argv = [ctx.bins["xcp"], "-r", "--driver", driver, "-w", str(rng.choice([1, 2, 4])), "s/x", "t/nodir/deeper/x"]
+            r = xcp.run_plain(argv, d)
+            after = xcp.snapshot(os.fsencode(d))
+            changed = [p for (p, a, b) in xcp.snap_diff(before, after, ignore=("ino", "nlink", "blocks", "atime_ns")) if p not in (b"", b"t")]
+            now = _k(after.get(b"t/nodir/deeper/x"))
+            want = {"file": "file", "dir": "dir", "link": "link", "special": "special"}[sk]
+            rep = dict(source=sk, destination="parent directory missing", driver=driver, argv=argv[1:], exit=r.exit, stderr=r.stderr[-200:])
+            out.case(("parent-missing", sk, driver), True)
+            out.count("dest_parent_missing_cells")
+            if r.exit == 0 and now != want:
+                out.violation("exit 0 but there is no %s at t/nodir/deeper/x (the destination's parent directory did not exist)" % want, rep)
+                got = "?"
+            elif r.exit == 0:
+                got = "created"
+            elif changed:
+                # ancestors made on the way to a refusal are not entries any source maps onto
+                got = "refused" if all(after[p]["kind"] == "dir" for p in changed if p in after) else "?"
+                if got == "?":
+                    out.violation("non-zero exit but %r changed" % changed[:3], rep)
+            else:
+                got = "refused"
+            cells.append([SK.index(sk)])
+            obs.append((rep, got))
+            shutil.rmtree(d, ignore_errors=True)
+    if ctx.model_ok and cells:
+        res = core.run_model("run_parent_missing", cells, shard=200, tag=prop.lower() + "pm")
+        for (rep, got), mo in zip(obs, res):
+            exp = OUT[mo[0]] if mo[0] < len(OUT) else "?"
+            if got != "?" and got != exp:
+                out.corr("R1-parent-missing (DestMatrix.parent_missing_outcome)", rep, exp, got)
